@@ -55,12 +55,13 @@ inductive Reason
   | sizeOfBody             -- Java: `_size_(_body_)`
   | largeLiteral           -- Java: a literal that does not fit `int` / a size field wider than 32 bits
   | childWithoutMembers    -- Java: a child declaration without any named field or payload of its own
+  | hugeCount              -- Rust: a static array count of 2^31 or more (`for _ in 0..N` is typed `i32`)
 deriving DecidableEq, Repr
 
 def Reason.uncompilable : Reason → Bool
   | .sizeAfterArray | .payloadBeforeDynamic | .elementSizeOfScalars | .constraintOnOptional
   | .payloadlessParent | .fixedOnRangeTag | .constraintOnDefaultTag | .emptyPacket | .structWithPayload
-  | .arrayModifierNoSize | .enumFirstTagNotValue | .sizeOfBody | .largeLiteral | .childWithoutMembers => true
+  | .arrayModifierNoSize | .enumFirstTagNotValue | .sizeOfBody | .largeLiteral | .childWithoutMembers | .hugeCount => true
   | _ => false
 
 def Reason.base : Reason → String
@@ -76,7 +77,7 @@ def Reason.base : Reason → String
   | .constraintOnDefaultTag => "constraintOnDefaultTag" | .emptyPacket => "emptyPacket"
   | .structWithPayload => "structWithPayload" | .arrayModifierNoSize => "arrayModifierNoSize"
   | .enumFirstTagNotValue => "enumFirstTagNotValue" | .sizeOfBody => "sizeOfBody" | .largeLiteral => "largeLiteral"
-  | .childWithoutMembers => "childWithoutMembers"
+  | .childWithoutMembers => "childWithoutMembers" | .hugeCount => "hugeCount"
 
 def Reason.name (r : Reason) : String := if r.uncompilable then "uncompilable:" ++ r.base else r.base
 
@@ -403,7 +404,8 @@ def pre (t : Target) (f : File) : List Reason :=
     when (constraintOnOpt f) .constraintOnOptional ++
     when (payloadlessParentBad f) .payloadlessParent ++
     when (fixedOnNonValue f) .fixedOnRangeTag ++
-    when (constraintOnDefault f) .constraintOnDefaultTag
+    when (constraintOnDefault f) .constraintOnDefaultTag ++
+    when (anyField f fun _ fl => match fl.desc with | .array _ _ _ _ (some n) => n ≥ 2 ^ 31 | _ => false) .hugeCount
   | .python =>
     when mis .misaligned ++
     when (forwardArray f false) .forwardArrayType ++
